@@ -68,9 +68,13 @@ func (f *FakeTB) Fatalf(format string, args ...any) {
 	f.setFailed()
 	f.failNowImpl()
 }
-func (f *FakeTB) Fatal(args ...any) { f.rec("Fatal", fmt.Sprint(args...)); f.setFailed(); f.failNowImpl() }
-func (f *FakeTB) FailNow()          { f.rec("FailNow", ""); f.setFailed(); f.failNowImpl() }
-func (f *FakeTB) Fail()             { f.rec("Fail", ""); f.setFailed() }
+func (f *FakeTB) Fatal(args ...any) {
+	f.rec("Fatal", fmt.Sprint(args...))
+	f.setFailed()
+	f.failNowImpl()
+}
+func (f *FakeTB) FailNow() { f.rec("FailNow", ""); f.setFailed(); f.failNowImpl() }
+func (f *FakeTB) Fail()    { f.rec("Fail", ""); f.setFailed() }
 func (f *FakeTB) setFailed() {
 	f.mu.Lock()
 	f.failed = true
